@@ -148,3 +148,87 @@ Example C07_source_decode_nonvacuous :
   Translated3.g3_wsutil_decode 0%Z 0%Z 226%Z (GoMem.mk_world [] []) = GoSlices.Ok ((2%Z, 36%Z), GoMem.mk_world [] [])
   /\ u8_decode 0 226 = 36.
 Proof. vm_compute. split; reflexivity. Qed.
+
+(* ---- a STREAM of messages, each judged by itself (the usage of observation kind RDE).
+   The caller drives ONE Reader over the whole stream with [judge_stream] (coq/model/ReaderInvalid.v):
+   NextFrame; Read with any buffer sizes until an error; io.EOF = the message is delivered (verdict
+   VOk opcode bytes); ErrInvalidUTF8 = verdict VInvalid, then Discard, and on with NextFrame.
+   [fs] is ANY frame sequence that is well-formed on the wire ([wire_ok c fs]: the frame-sequence
+   spec of the same configuration WITHOUT the UTF-8 rule accepts it to its end — header rules in
+   the fragmentation state, MaxFrameSize, the RSV1 rule, the stream ends at a message boundary);
+   nothing is assumed about payload bytes.  Its messages [messages_of c fs] are that spec's
+   events other than interleaved control frames: the data messages with their reassembled
+   payloads, and control frames standing outside a message (the Reader hands those out like
+   messages), in stream order.  Any configuration [c] with CheckUTF8 on (side/extension bits,
+   MaxFrameSize, MessageState attached or not), any transport chunking [s], any caller buffers.
+   Then the driver runs to a clean io.EOF and returns EXACTLY ONE verdict per message, in
+   order, and the verdict of message k is [verdict_of c] of THAT message alone: VInvalid exactly
+   when it is a text message (opcode 1) whose whole payload is not valid UTF-8 (Unicode Table
+   3-7, [valid_utf8]) — however it is fragmented, chunked and read —, otherwise VOk with its
+   opcode and its exact bytes.  In particular an invalid message never makes a later valid one
+   fail, a valid one is never refused because of what came before, and binary messages and
+   control frames are never judged. *)
+Require Import ReaderInvalid ReaderInvalidProofs.
+
+Theorem C07_stream_of_messages_each_judged : forall c fs s bufs fuel,
+  wf_cfg c -> c_check_utf8 c = true -> Forall wf_sframe fs -> wire_ok c fs ->
+  wf_src s -> tl s = TEOF -> flat s = wire fs -> (length (wire fs) + 1 <= fuel)%nat ->
+  judge_stream fuel bufs (new_reader s (c_state c) false (c_check_utf8 c) (c_max c) (c_ext c) CbReadAll)
+  = (map (verdict_of c) (messages_of c fs), RIo EEOF).
+Proof. exact stream_of_messages_each_judged. Qed.
+Print Assumptions C07_stream_of_messages_each_judged.
+
+(* a server with extension, chunks of 3,1,7,2,..., buffers 2,5,1.  Six messages on one Reader:
+   text "hi" | ping | "j" FF "k" | "l" (invalid: rejected inside the second fragment);
+   text "h€" (valid); a ping standing alone; text "h" E2 82 in one frame (invalid: detected at its
+   very end, frame drained); binary FF | FE (never judged); text "h€" again.
+   Verdicts: invalid, ok, ok (the ping), invalid, ok, ok — and they are [verdict_of] of each message. *)
+Example C07_stream_of_messages_nonvacuous :
+  let k1 := [17; 34; 51; 68] in let k2 := [255; 0; 128; 7] in
+  let ping := mkSF true 0 9 (Some k2) [1; 2] in
+  let l := [mkFrag [ping] (Some k2) [106; 255; 107]; mkFrag [] (Some k1) [108]] in
+  let m1 := ReaderStreamC13.msg_frames_rsv 4 1 (Some k1) [104; 105] l in
+  let m2 := [mkSF true 0 1 (Some k2) [104; 226; 130; 172]] in
+  let m1b := [mkSF true 0 1 (Some k1) [104; 226; 130]] in
+  let m3 := [mkSF false 0 2 (Some k1) [255]; mkSF true 0 0 (Some k2) [254]] in
+  let fs := m1 ++ m2 ++ [ping] ++ m1b ++ m3 ++ m2 in
+  let c := mkCfg 5 true 0 true in
+  let s := mkSrc (chunk_by [3; 1; 7; 2] (wire fs)) TEOF in
+  (wf_cfg c /\ Forall wf_sframe fs /\ wire_ok c fs /\ wf_src s /\ flat s = wire fs) /\
+  map (fun e => (ev_op e, ev_payload e)) (messages_of c fs) =
+    [(1, [104; 105; 106; 255; 107; 108]); (1, [104; 226; 130; 172]); (9, [1; 2]); (1, [104; 226; 130]);
+     (2, [255; 254]); (1, [104; 226; 130; 172])] /\
+  judge_stream (length (wire fs) + 1) [2; 5; 1] (new_reader s 5 false true 0 true CbReadAll) =
+    ([VInvalid; VOk 1 [104; 226; 130; 172]; VOk 9 [1; 2]; VInvalid; VOk 2 [255; 254]; VOk 1 [104; 226; 130; 172]], RIo EEOF) /\
+  map (verdict_of c) (messages_of c fs) =
+    [VInvalid; VOk 1 [104; 226; 130; 172]; VOk 9 [1; 2]; VInvalid; VOk 2 [255; 254]; VOk 1 [104; 226; 130; 172]].
+Proof.
+  cbv zeta. split.
+  - split; [reflexivity|]. split.
+    { repeat constructor; try reflexivity; try (intro H; discriminate H). }
+    split; [vm_compute; reflexivity|]. split; [vm_compute; repeat constructor; discriminate|]. vm_compute; reflexivity.
+  - split; [vm_compute; reflexivity|]. split; vm_compute; reflexivity.
+Qed.
+
+(* "independently of the messages before it", at the level of the spec: a piece [a] of the stream that
+   is well-formed on the wire (so it ends at a message boundary) contributes exactly ITS messages,
+   whatever follows, and what follows is well-formed / has the messages it would have standing alone.
+   Hence, with the theorem above, the verdicts of a ++ b are the verdicts of a followed by those of b. *)
+Theorem C07_messages_split : forall c a b, Forall wf_sframe a -> wire_ok c a ->
+  messages_of c (a ++ b) = messages_of c a ++ messages_of c b /\ (wire_ok c (a ++ b) <-> wire_ok c b).
+Proof. exact messages_of_app. Qed.
+Print Assumptions C07_messages_split.
+
+(* ... and ONE structured data message (extension attached; first frame with reserved bits rsv0, any
+   fragmentation [l] with control frames in between, every frame fitting the side's mask rule and
+   MaxFrameSize) is well-formed on the wire and is its own single message: opcode op, payload the
+   concatenation of its fragments — so its verdict is VInvalid exactly when op = 1 and that
+   concatenation is not valid UTF-8. *)
+Theorem C07_messages_of_one_message : forall c rsv0 op k0 p0 l, c_ext c = true -> (op = 1 \/ op = 2) ->
+  (rsv0 = 0 \/ st_extended (c_state c) = true) ->
+  let fs := ReaderStreamC13.msg_frames_rsv rsv0 op k0 p0 l in
+  Forall wf_sframe fs -> Forall (fun f => mask_ok (c_state c) f = true /\ too_large c f = false) fs ->
+  Forall (fun x => Forall (fun f => ctl_ok f = true) (fr_ctl x)) l ->
+  wire_ok c fs /\ messages_of c fs = [mkEv op (msg_payload p0 l) false (ReaderStreamC13.rsv1_bit rsv0)].
+Proof. exact messages_of_message. Qed.
+Print Assumptions C07_messages_of_one_message.
